@@ -370,6 +370,16 @@ func init() {
 	add(mutation{Name: "ref-points-to-tree", Level: "ref", Verdict: "reject", Props: "C07", Applies: always, Apply: func(h *history, c, o int) {
 		h.RawRefTarget = "tree"
 	}})
+	add(mutation{Name: "recommitted-same-content", Level: "ref", Verdict: "either", Props: "C07", Applies: always, Apply: func(h *history, c, o int) {
+		// the same operations under the same id, but in commits unrelated to the ones the victim holds
+		h.Recommit = true
+	}})
+	add(mutation{Name: "recommitted-with-extra-commit", Level: "ref", Verdict: "either", Props: "C07", Applies: always, Apply: func(h *history, c, o int) {
+		h.Recommit = true
+		last := h.head()
+		m := map[string]interface{}{"type": model.OpSetStatus, "timestamp": 1700000999, "nonce": model.Nonce(31337, 20), "status": 2}
+		h.Nodes = append(h.Nodes, &node{Spec: model.PackSpec{Author: h.Nodes[0].Spec.Author, Version: 4, Edit: h.maxEdit() + 1, Ops: []json.RawMessage{model.OpJSON(m)}}, Parents: []int{last}})
+	}})
 	add(mutation{Name: "byte-flip", Level: "commit", Verdict: "either", Props: "C07", Applies: hasOps, Apply: nil})
 }
 
